@@ -15,6 +15,7 @@ package main
 
 import (
 	"fmt"
+	"strconv"
 	"time"
 
 	"verif/internal/harness"
@@ -32,11 +33,12 @@ const (
 	roleDiff
 	roleSector
 	roleProofsNoAVX2
+	role386
 	nFixed
 )
 
 var roleNames = map[int]string{roleCPU: "cpu-paths", roleRoots: "roots", roleRootsNoAVX2: "roots(avx2 off)", roleRace: "race", roleRace1CPU: "race(1 cpu)",
-	roleRace3CPU: "race(3 cpus)", roleRange: "range-proofs", roleAppend: "append-proofs", roleDiff: "diff/free-proofs", roleSector: "sector-proofs", roleProofsNoAVX2: "proofs(avx2 off)"}
+	roleRace3CPU: "race(3 cpus)", roleRange: "range-proofs", roleAppend: "append-proofs", roleDiff: "diff/free-proofs", roleSector: "sector-proofs", roleProofsNoAVX2: "proofs(avx2 off)", role386: "roots+proofs(GOARCH=386)"}
 
 // extra batches of the thorough tier
 var extraRoles = []int{roleSector, roleRange, roleRoots, roleDiff, roleSector, roleAppend, roleRootsNoAVX2, roleCPU, roleSector, roleRange, roleProofsNoAVX2, roleDiff}
@@ -92,6 +94,17 @@ func run(b *harness.B) {
 		runDiff(b, share, shares, false)
 	case roleSector:
 		runSector(b, share, shares, false)
+	case role386:
+		// built for GOARCH=386: int is 32 bits wide, the hash runs on the generic path
+		if strconv.IntSize != 32 {
+			b.Inconclusive("the GOARCH=386 batch was not run from a 32-bit build")
+		}
+		b.Count("batches_run_with_32_bit_int", 1)
+		runRoots(b, 0, 1)
+		runSector(b, 0, 1, true)
+		runRange(b, 0, 1, true)
+		runAppend(b, 0, 1, true)
+		runDiff(b, 0, 1, true)
 	case roleProofsNoAVX2:
 		if hasAVX2() {
 			b.Inconclusive("GODEBUG=cpu.avx2=off was not honoured: the generic path was not forced")
@@ -132,6 +145,7 @@ func main() {
 		RaceBatches: func(t string) []int {
 			return []int{roleRace, roleRace1CPU, roleRace3CPU}
 		},
+		Arch386Batches: func(t string) []int { return []int{role386} },
 		ChildEnv: func(batch int) []string {
 			switch roleOf(batch) {
 			case roleRootsNoAVX2, roleProofsNoAVX2:
